@@ -139,11 +139,27 @@ func sortCheck(c *core.Ctx, vals []int, rs rankerSpec, r *core.Rng, viaCollectio
 	if viaCollections && rs.preorder && rs.name != "random" {
 		// Array, List and Catalog must produce the identical arrangement (same deterministic algorithm, same ranker)
 		want := fmt.Sprint(work)
+		// "the same effect": a permutation of the same tagged values that is
+		// position-wise rank-equal to the sorter's arrangement (the arrangement of
+		// values the ranker cannot tell apart is not constrained)
+		sameEffect := func(got []Tag) bool {
+			if len(got) != len(work) {
+				return false
+			}
+			seen := make([]bool, n)
+			for i, t := range got {
+				if t.ID < 0 || t.ID >= n || seen[t.ID] || vals[t.ID] != t.Val || base(t, work[i]) != age.EqualRank {
+					return false
+				}
+				seen[t.ID] = true
+			}
+			return true
+		}
 		arr := col.Array[Tag](Notation).MakeFromArray(in)
 		arr.SortValuesWithRanker(base)
 		lst := col.List[Tag](Notation).MakeFromArray(in)
 		lst.SortValuesWithRanker(base)
-		if fmt.Sprint(arr.AsArray()) != want || fmt.Sprint(lst.AsArray()) != want {
+		if !sameEffect(arr.AsArray()) || !sameEffect(lst.AsArray()) {
 			c.Violation("sort.collection/differs-from-sorter/"+rs.name, fmt.Sprintf("sorter: %s array: %v list: %v", want, arr.AsArray(), lst.AsArray()), cs)
 			return false
 		}
@@ -158,7 +174,7 @@ func sortCheck(c *core.Ctx, vals []int, rs rankerSpec, r *core.Rng, viaCollectio
 		for _, a := range cat.AsArray() {
 			got = append(got, Tag{a.GetValue(), a.GetKey()})
 		}
-		if fmt.Sprint(got) != want && n > 0 {
+		if !sameEffect(got) && n > 0 {
 			c.Violation("sort.collection/differs-from-sorter/"+rs.name, fmt.Sprintf("sorter: %s catalog: %v", want, got), cs)
 			return false
 		}
